@@ -66,6 +66,17 @@ def verify_root(trusted_current_root_metadata, untrusted_new_root_metadata):
             '"root".'
         )
 
+    # Root metadata must say who may sign root (root chaining depends on it).
+    if (
+        "root" not in trusted_current_root_metadata["signed"]["delegations"]
+        or "root" not in untrusted_new_root_metadata["signed"]["delegations"]
+    ):
+        raise ValueError(
+            "Expected two instances of root metadata that each include a "
+            'delegation to "root".  One or both pieces of metadata provided '
+            "lack it."
+        )
+
     # Extract rules for root from old, trusted version of root.
     root_expectations = trusted_current_root_metadata["signed"]["delegations"]["root"]
     expected_threshold = root_expectations["threshold"]
